@@ -44,7 +44,7 @@ package updater
 // selectVersion: the documented cascade. (Versions are sorted newest first by sort.Sort; the
 // assumption at that call states that sorting permutes the entries.)
 //@ func (*Resource).selectVersion
-//@   requires wfRes(res) && (res.notifier != nil ==> res.notifier.notifyChannel != nil)
+//@   requires wfRes(res) && (res.notifier != nil ==> res.notifier.notifyChannel != nil && res.notifier.upgradeAvailable != nil)
 //@   modifies *
 //@   ghost var devEq bool = false
 //@   at after sort.Sort assume forall k int :: soff(res.Versions) <= k && k < soff(res.Versions) + len(res.Versions) ==> (exists j int :: soff(res.Versions) <= j && j < soff(res.Versions) + len(res.Versions) && elems(res.Versions)[k] == old(elems(res.Versions))[j])
@@ -70,7 +70,7 @@ package updater
 //@ spec distinctV(res *Resource) bool = forall a int, b int :: soff(res.Versions) <= a && a < b && b < soff(res.Versions) + len(res.Versions) ==> elems(res.Versions)[a] != elems(res.Versions)[b]
 
 //@ func (*Resource).Blacklist
-//@   requires wfRes(res) && distinctV(res) && (res.notifier != nil ==> res.notifier.notifyChannel != nil)
+//@   requires wfRes(res) && distinctV(res) && (res.notifier != nil ==> res.notifier.notifyChannel != nil && res.notifier.upgradeAvailable != nil)
 //@   modifies *
 //@   at after (*Version).Equal assume ret0 == isDev(arg0)
 //@   ensures r0 == nil ==> (exists k int :: soff(res.Versions) <= k && k < soff(res.Versions) + len(res.Versions) && goodV(elems(res.Versions)[k]))
